@@ -54,6 +54,7 @@ def cases(draw, tier):
     items = refinst.expected(M.observable(m))
     opts = draw(PC.options(m, items))
     opts['boost'] = False  # boost headers are not installed
+    m = draw(PC.reopen_top(m, opts))
     k = 18 if tier == 'quick' else 12
     return {'m': m, 'opts': opts, 'compile': draw(st.integers(0, k)) == 5}
 
@@ -196,6 +197,8 @@ def features(case):
                 f.add('nested-template-args')
     if case['opts']['top']:
         f.add('top-namespace')
+    if PC.reopened(case['m']):
+        f.add('top-path-reopened')
     return f
 
 
